@@ -108,8 +108,10 @@ func (am AppModule) RegisterServices(cfg module.Configurator) {
 }
 
 // InitGenesis initializes the genesis state for this module and implements app module.
-func (am AppModule) InitGenesis(ctx sdk.Context, _ codec.JSONCodec, _ json.RawMessage) []abci.ValidatorUpdate {
-	am.keeper.InitGenesis(ctx, types.GenesisState{})
+func (am AppModule) InitGenesis(ctx sdk.Context, cdc codec.JSONCodec, data json.RawMessage) []abci.ValidatorUpdate {
+	var state types.GenesisState
+	cdc.MustUnmarshalJSON(data, &state)
+	am.keeper.InitGenesis(ctx, state)
 	return []abci.ValidatorUpdate{}
 }
 
